@@ -208,9 +208,21 @@ def step_corpus(ctx):
                                        "replay": {"correspondence": "corpus", "from": k.get("line", k.get("what", ""))[:160], "type": o[2],
                                                   "command_code": o[3], "parameter_encryption": o[4], "mode": "warn" if o[1] == "W" else "strict",
                                                   "hex": o[5].hex(), "model": b[-1][:200], "impl": a[-1][:200]}})
+    # entries recorded with a caller-supplied root path: the implementation below that root == the implementation at the default root
+    rooted = [(k, o) for k, o in ops if k["replay"].get("root_path")]
+    if rooted:
+        r1 = core.run_impl([("DECROOT",) + o[1:] + (k["replay"]["root_path"],) for k, o in rooted])
+        r0 = core.run_impl([o for _, o in rooted])
+        for (k, o), a, b in zip(rooted, r0, r1):
+            if a != b:
+                bad += 1
+                ctx.violations.append({"kind": "concrete", "signature": f"corpus:root-path:{o[2]}",
+                                       "what": "a repaired defect is back: decoding below a caller-supplied root path differs from decoding at the default root",
+                                       "replay": {"from": k.get("line", "")[:160], "type": o[2], "root_path": k["replay"]["root_path"], "hex": o[5].hex(),
+                                                  "expected": a[-1][:200], "observed": b[-1][:200]}})
     ctx.stats.setdefault("correspondence", {})
     if isinstance(ctx.stats["correspondence"], dict):
-        ctx.stats["correspondence"]["corpus_of_past_failures"] = {"inputs": len(ops), "disagreements": bad}
+        ctx.stats["correspondence"]["corpus_of_past_failures"] = {"inputs": len(ops), "rooted": len(rooted), "disagreements": bad}
 
 
 def load_known():
